@@ -201,7 +201,7 @@ def run(ctx):
         if u["status"] == "ok":
             for c in batch.cases[u["id"]]:
                 gocmds.append({"op": "doc", "id": "%s/%d" % (u["pkg"], c["n"]), "type": u["type"], "doc": c["real"]})
-    gores = sc.run_driver(ctx, batch, gocmds, "docs") if gocmds else {}
+    gores = pc.run_driver_safe(ctx, batch, gocmds, "docs") if gocmds else {}
     # ---- Python: from_json + generated encoder for every accepted document
     pycmds = []
     accepted = {}
@@ -217,6 +217,7 @@ def run(ctx):
         if root not in u.get("py_classes", []):
             dropped["no python class for the root object"] += 1
             continue
+        prev = None
         for c, ra in zip(batch.cases[u["id"]], racc):
             n_docs += 1
             if c["f"] != "AddUndeclared" and ra != c["accepts"]:
@@ -228,9 +229,13 @@ def run(ctx):
             pycmds.append({"op": "roundtrip", "id": "%s/%d" % (u["pkg"], c["n"]), "module": u["pkg"], "cls": root, "doc": c["real"]})
             if c["f"] == "base":
                 pycmds.append({"op": "encode", "id": "%s/%d/e" % (u["pkg"], c["n"]), "module": u["pkg"], "cls": root, "doc": c["real"]})
+            if prev is not None:
+                # the same document decoded AFTER another one of the same class (whose result was mutated in place)
+                pycmds.append({"op": "roundtrip2", "id": "%s/%d/2" % (u["pkg"], c["n"]), "module": u["pkg"], "cls": root, "first": prev["real"], "doc": c["real"]})
+            prev = c
     if not pycmds:
         raise core.Inconclusive("no accepted document reaches executable python")
-    pyres = pc.run_pydriver(ctx, batch, pycmds, "roundtrip")
+    pyres = pc.run_pydriver_safe(ctx, batch, pycmds, "roundtrip")
 
     # ---- thorough: both directions. What Go wrote is read (and written again) by Python, what Python wrote by Go:
     #      "data written by one generated SDK is readable by the other"
@@ -244,11 +249,14 @@ def run(ctx):
                 c2py.append({"op": "roundtrip", "id": "%s/%d" % (pkg, n), "module": pkg, "cls": batch.cat[u["id"]]["schema"]["root"], "doc": g["enc"]})
             if p["ok"] and u["status"] == "ok":
                 c2go.append({"op": "doc", "id": "%s/%d" % (pkg, n), "type": u["type"], "doc": p["enc"]})
-        cross_py = pc.run_pydriver(ctx, batch, c2py, "go-to-python") if c2py else {}
-        cross_go = sc.run_driver(ctx, batch, c2go, "python-to-go") if c2go else {}
+        cross_py = pc.run_pydriver_safe(ctx, batch, c2py, "go-to-python") if c2py else {}
+        cross_go = pc.run_driver_safe(ctx, batch, c2go, "python-to-go") if c2go else {}
 
     # ---- join
     tw = pc.PyTraceWriter(ctx, batch, "c11")
+    soft = []           # reasons that make the run inconclusive unless violations were observed (pc.settle)
+    if getattr(batch, "go_unusable", None):
+        soft.append("Go side unusable (wire agreement not judged): " + batch.go_unusable)
     order = []
     cross_implied = 0
     per_pos, per_kind, per_fmt, per_label, per_clause = (collections.Counter() for _ in range(5))
@@ -310,6 +318,19 @@ def run(ctx):
             dcls, dpath = diff_class(schema, c["py"], sc.norm_py(S, root, go_enc), sc.norm_py(S, root, py_enc), "python-vs-go")
             ctx.fail("C11/python/wire-agreement/%s/%s" % (dcls, u["fmt"]),
                      "for the document %s Go writes %s, Python writes %s: differ at %s" % (sc.dumps(c["py"]), sc.dumps(go_enc), sc.dumps(py_enc), ".".join(dpath)), base)
+        second = pyres.get("%s/%d/2" % (pkg, n))
+        if second is not None and py_ok:
+            per_clause["second-from_json"] += 1
+            s_ok = bool(second["ok"])
+            s_enc = pc.tok(second["enc"]) if s_ok else None
+            if tw.add_pyrt(pkg, c, True, s_ok, s_enc, False, None):
+                sv = set() if (s_ok and sc.json_equal(sc.norm_py(S, root, s_enc), want)) else {("RoundTrip",)}
+                order.append((pkg, dict(c, cross="second from_json"), sv))
+                if sv and rt_ok:      # only when the document decoded on its own round-trips: the state of the first from_json leaked
+                    ctx.fail("C11/python/roundtrip/state-survives-between-from_json:%s/%s" % (
+                                 "raises" if not s_ok else diff_class(schema, c["py"], want, sc.norm_py(S, root, s_enc))[0], u["fmt"]),
+                             "%s decoded after another document of the same class: %s (decoded on its own it round-trips)" % (
+                                 sc.dumps(c["real"]), "raises %s" % second.get("err") if not s_ok else "to_json gives %s" % sc.dumps(pc.detok(s_enc))), base)
         e = pyres.get("%s/%d/e" % (pkg, n))
         if e is not None and py_ok and (not e["ok"] or not sc.json_equal(pc.tok(e["enc"]), py_enc)):
             ctx.fail("C11/python/roundtrip/encoder-differs-from-to_json:%s/%s" % (cls, u["fmt"]),
@@ -360,11 +381,11 @@ def run(ctx):
     for i, (pkg, c, verdict) in enumerate(order):
         tv = tlc_viol.get(i, set())
         if ("SpecVsValidator",) in tv:
-            raise core.Inconclusive("TLC: Accepts rejects a document the harness judged accepted (%s #%d)" % (pkg, c["n"]))
-        if tv != verdict:
-            raise core.Inconclusive("TLC and the python join disagree on %s #%d%s (%s): TLC %s, python %s" % (
+            soft.append("TLC: Accepts rejects a document the harness judged accepted (%s #%d)" % (pkg, c["n"]))
+        elif tv != verdict:
+            soft.append("TLC and the python join disagree on %s #%d%s (%s): TLC %s, python %s" % (
                 pkg, c["n"], " " + c["cross"] if c.get("cross") else "", sc.dumps(c["py"]), sorted(tv), sorted(verdict)))
-        if not tv:
+        elif not tv:
             agree_n += 1
 
     if not replay:
@@ -373,9 +394,9 @@ def run(ctx):
         vac += ["kind:" + k for k in KINDS if per_kind[k] == 0]
         vac += ["format:" + f for f in sc.FORMATS if per_fmt[f] == 0]
         if vac:
-            raise core.Inconclusive("vacuous clauses / classes (never exercised on executable code): %s" % vac)
+            soft.append("vacuous clauses / classes (never exercised on executable code): %s" % vac)
         if n_docs and dropped["spec-validator-disagree"] > MAX_DISAGREE * n_docs:
-            raise core.Inconclusive("Accepts and the reference validators disagree on %d of %d documents" % (dropped["spec-validator-disagree"], n_docs))
+            soft.append("Accepts and the reference validators disagree on %d of %d documents" % (dropped["spec-validator-disagree"], n_docs))
 
     binding = None
     good = [(pkg, c) for pkg, c, v in order if not v and not c.get("cross") and gores.get("%s/%d" % (pkg, c["n"]))]
@@ -385,13 +406,17 @@ def run(ctx):
         g = gores["%s/%d" % (pkg, c["n"])]
         bad = dict(p["enc"]) if isinstance(p["enc"], dict) else {}
         bad["corruptedBySelftest"] = 1
-        binding = pc.selftest(ctx, batch, lambda tw_: tw_.add_pyrt(pkg, c, True, True, p["enc"], True, g["enc"]),
-                              lambda tw_: tw_.add_pyrt(pkg, c, True, True, bad, True, g["enc"]),
-                              "SemanticsPyTrace(Strict) accepts a genuine round-trip record (%s #%d) and rejects it once a member is added to the "
-                              "recorded Python encoding" % (pkg, c["n"]))
+        try:
+            binding = pc.selftest(ctx, batch, lambda tw_: tw_.add_pyrt(pkg, c, True, True, pc.tok(p["enc"]), True, pc.tok(g["enc"])),
+                                  lambda tw_: tw_.add_pyrt(pkg, c, True, True, pc.tok(bad), True, pc.tok(g["enc"])),
+                                  "SemanticsPyTrace(Strict) accepts a genuine round-trip record (%s #%d) and rejects it once a member is added to the "
+                                  "recorded Python encoding" % (pkg, c["n"]))
+        except core.Inconclusive as e:
+            soft.append(str(e))
     elif not replay:
-        raise core.Inconclusive("no record that holds: binding self-test impossible")
+        soft.append("no record that holds: binding self-test impossible")
 
+    pc.settle(ctx, soft)
     witnesses = collections.defaultdict(set)
     for f in ctx.failures:
         witnesses[f["signature"]].add("%s@%s %s" % (f["replay"]["leaf"], f["replay"]["pos"], f["replay"]["label"]))
